@@ -172,7 +172,7 @@ def invalid_rejected(V, accel, which):
     return [("invalid block is rejected", cfg is None)]
 
 
-def _mk_op(kind, bits, quant_mode, lut, scalar, upscale, traversal):
+def _mk_op(kind, bits, quant_mode, lut, scalar, upscale, traversal, ofm_bits=None):
     from ethosu.vela import api as a
 
     dt = {8: a.NpuDataType.INT8, 16: a.NpuDataType.INT16, 32: a.NpuDataType.INT32}[bits]
@@ -200,6 +200,8 @@ def _mk_op(kind, bits, quant_mode, lut, scalar, upscale, traversal):
         op = a.NpuElementWiseOperation(a.NpuElementWiseOp.ADD)
     op.ifm = fm(16, 16, 32, q)
     op.ofm = fm(16, 16, 32, q_full)
+    if ofm_bits is not None:  # operations whose OFM precision differs from the IFM's (16-bit in / 8-bit out, 8-bit in / 32-bit out ...)
+        op.ofm.data_type = {8: a.NpuDataType.INT8, 16: a.NpuDataType.INT16, 32: a.NpuDataType.INT32}[ofm_bits]
     op.kernel = a.NpuKernel(3, 3) if kind != "ew" else a.NpuKernel(1, 1)
     if kind == "ew":
         op.ifm2 = fm(16, 16, 32, q_full)
@@ -216,7 +218,7 @@ class _Stop(Exception):
     pass
 
 
-def query(V, accel, kind, bits, quant_mode, lut, scalar, upscale, partk, bw, bh):
+def query(V, accel, kind, bits, quant_mode, lut, scalar, upscale, partk, bw, bh, ofm_bits=None):
     """the block-config query and the generator derive try_block_config's arguments from the same operation; for a symbolic block
     depth: query accepts => generator accepts"""
     import ethosu.vela.architecture_allocator as aa
@@ -228,7 +230,7 @@ def query(V, accel, kind, bits, quant_mode, lut, scalar, upscale, partk, bw, bh)
     arch = arch_for(accel)
     trav = api.NpuBlockTraversal.PART_KERNEL_FIRST if partk else api.NpuBlockTraversal.DEPTH_FIRST
     sc = {"none": None, "zero": 0.0, "three": 3.0}[scalar]
-    op = _mk_op(kind, bits, quant_mode, lut, sc, upscale, trav)
+    op = _mk_op(kind, bits, quant_mode, lut, sc, upscale, trav, ofm_bits)
     cap = {}
 
     def grab(name):
@@ -357,6 +359,11 @@ def instances(tier, seed):
                                     for bw, bh in blocks:
                                         out.append(dict(key="query/%s/%s%d/%s/l%d/%s/u%d/p%d/b%dx%d" % (accel, kind, bits, quant_mode, lut, scalar, upscale, partk, bh, bw), fn="query",
                                                         params=dict(accel=accel, kind=kind, bits=bits, quant_mode=quant_mode, lut=lut, scalar=scalar, upscale=upscale, partk=partk, bw=bw, bh=bh)))
+        for kind in ("conv", "dw", "pool", "ew"):
+            for bits, ofm_bits in ((16, 8), (8, 16), (8, 32), (16, 32)):
+                for bw, bh in [(ws[-1], hs[-1]), (ws[3], hs[2])]:
+                    out.append(dict(key="query/%s/%s%d_to_%d/b%dx%d" % (accel, kind, bits, ofm_bits, bh, bw), fn="query",
+                                    params=dict(accel=accel, kind=kind, bits=bits, quant_mode="full", lut=0, scalar="none", upscale=0, partk=0, bw=bw, bh=bh, ofm_bits=ofm_bits)))
         shapes = [(1, 1, 8), (1, 64, 32), (7, 7, 5), (16, 16, 64), (13, 3, 17)] if quick else [(1, 1, 8), (1, 64, 32), (7, 7, 5), (16, 16, 64), (13, 3, 17), (2, 2, 128), (31, 1, 9), (5, 11, 48)]
         for kind in ("conv", "dw", "pool", "ew"):
             for bits in (8, 16):
